@@ -623,7 +623,7 @@ func scale(n, size int) int {
 func TestCheck(t *testing.T) {
 	r := report.Begin("C04")
 	defer r.Finish()
-	r.Rule("per (exported Go SSZ type, preset in {mainnet, minimal, custom-a, custom-b}) values drawn with refssz.Random in shapes min (all lists empty) / typical (list lengths biased to 0,1,limit-1,limit) / at-limit (every list, bitlist and byte list whose limit is constructible exactly at its limit) cross into the library as reference-encoded bytes; every value also yields derived inputs in the three refusal classes (truncations at field boundaries ±1, one list one over its limit via the reference encoder, corrupted offsets) judged differentially against the strict reference decoder; 'x' searches feed rapid-mutated encodings and arbitrary bytes to the same differential body. non-trivial = value has >=1 non-default leaf and, for variable-size types, >=1 non-empty list; distinct key = (type, preset, shape, fixed/variable, #lists at limit capped at 3)")
+	r.Rule("per (exported Go SSZ type, preset in {mainnet, minimal, custom-a, custom-b, custom-c}) values drawn with refssz.Random in shapes min (all lists empty) / typical (list lengths biased to 0,1,limit-1,limit) / at-limit (every list, bitlist and byte list whose limit is constructible exactly at its limit) cross into the library as reference-encoded bytes; every value also yields derived inputs in the three refusal classes (truncations at field boundaries ±1, one list one over its limit via the reference encoder, corrupted offsets) judged differentially against the strict reference decoder; 'x' searches feed rapid-mutated encodings and arbitrary bytes to the same differential body. non-trivial = value has >=1 non-default leaf and, for variable-size types, >=1 non-empty list; distinct key = (type, preset, shape, fixed/variable, #lists at limit capped at 3)")
 	r.Assume("refssz and /verif/spec_tables/ssz_schemas.txt are the SSZ spec and the spec's schemas (harness transcription, cross-checked three ways in C05)",
 		"MAX_EXTRA_DATA_BYTES and BYTES_PER_LOGS_BLOOM are compile-time constants of the library and are not varied",
 		"encoding/json and gopkg.in/yaml.v3 are correct")
